@@ -31,9 +31,24 @@ What is proved.
   (`ClvmModel/Serde/TreeCache.lean`: `update`, `node_map` keyed by node identity, entries, parent links
   with eviction, `on_stack`, `serialized_nodes`, checkpoints incl. `sentinel_entry`, `restore`, the
   lock-step search of `find_path` with its tie-breaking, `PathBuilder`); it *computes* the crate's bytes,
-  the defective ones of L, M, N included, and the `INC` stream compares them exactly.  **No theorem is
-  proved about the faithful model** (in particular not "its `find_path` is a valid policy outside the
-  regions of L, M, N", which would discharge `hvalid` there): its tie to the crate is the stream.
+  the defective ones of L, M, N included, and the `INC` stream compares them exactly.
+* Theorems about the faithful model (`Lemmas/TreeCache*.lean`):
+  `faithful_path_codec` (`PathBuilder::done` and `traverse_path` are inverse);
+  `faithful_find_path_sound` — in **any** cache state whose recorded parent links are true child relations
+  of a content assignment (eviction, the `seen` set, the cursor and the length discipline play no role),
+  a path returned by the lock-step search, walked by `traverse_path` on the current parse stack, reaches
+  the content of the requested node: the hypothesis `Valid` of `complete_decodes_partial` is reduced to an
+  invariant of `update`/`push`/`pop`;
+  `faithful_update_sound` — on a cache without sentinel `update()` keeps that invariant (every entry has a
+  content, every sub-node of the root is registered under its key with its content, only true parent links
+  are recorded, `MAX_PARENTS` eviction and the final `drain` only remove or replace links by true ones);
+  `faithful_single_add_decodes` / `faithful_statement_no_sentinel` — **unconditional** `Statement` for the
+  faithful model on serializers without sentinel (the incremental serializer used as a one-shot
+  serializer, `add:` and `adds:` node identities): whenever `add` returns, it reports completion and both
+  decoders return the tree; this ties the byte-exact model to C17's statement.
+  **Open** (`FaithfulStatementDefectFree`, a `def`, neither axiom nor hypothesis): the same for histories
+  with a sentinel inside the decidable defect-free region `DefectFree` (no `restore`, at most one sentinel
+  per addition, no sentinel-containing node shared).  What is missing is stated at the `def`.
 * The salt (`TreeCache::salt`, `RandomState`) does not occur in the model; run-to-run equality of the
   real serializer's bytes is checked by the oracle (`inc_salt_independent`) and by the implementation
   side of the stream (a re-run with a new salt must reproduce the recorded bytes).
@@ -53,6 +68,7 @@ the lexicographically-terminating decoders on concrete bytes, which the kernel d
 decoded (wrong) trees are in KNOWN_FINDINGS.jsonl and are recomputed by the oracle on every run.
 -/
 import ClvmProofs.Lemmas.IncrementalWitness
+import ClvmProofs.Lemmas.TreeCacheRegion
 
 namespace Clvm.Props.C19
 open Clvm Clvm.Serde Clvm.Serde.Incremental Clvm.Serde.Backref Clvm.Incremental Clvm.Backref
@@ -168,6 +184,64 @@ theorem validate_sound (sentinel : Option Bytes) (steps : List (Req × Rec)) (r 
   rw [hdone] at hg
   obtain ⟨A, h1, h2, _, _, h5⟩ := good_done_decodes hg
   exact ⟨A, h1, h2, h5⟩
+
+/-! ### the faithful model (`ClvmModel/Serde/TreeCache.lean`) -/
+
+section Faithful
+open Clvm.Serde.TreeCache Clvm.TreeCacheProofs Clvm.Serde.TraversePath
+
+/-- `PathBuilder::done` and `traverse_path` are inverse: a builder holding the terminator followed
+(newest first) by a walk yields bytes that `traverse_path` walks along exactly that walk -/
+theorem faithful_path_codec (p : PathB) (walk : List Bool) (t r : Tree) (hlen : p.len = p.rev.length)
+    (hrev : p.rev = walk ++ [true]) (hfol : follow walk t = some r) :
+    ∃ cost, traversePath p.done t = .ok (cost, r) := done_traverse p walk t r hlen hrev hfol
+
+/-- **`find_path` of the faithful model is sound** in every cache state whose parent links are true child
+relations of a content assignment `C`: the returned path leads, on the mirror of the current parse stack,
+to the content of the requested node's entry. -/
+theorem faithful_find_path_sound (C : Nat → Tree) (tc : TC) (hps : ParentsSound C tc) (node : Node) (path : Bytes)
+    (h : tc.findPath node = .ok (some path)) :
+    ∃ idx, alGet tc.nodeMap node.key = some idx ∧
+      ∃ cost, traversePath path (mirror C tc.stack.reverse) = .ok (cost, C idx) :=
+  findPath_sound C tc hps node path h
+
+/-- **`update()` keeps the invariant** on a cache without sentinel: contents extend, the parse stack is
+untouched, every recorded parent link is a true child relation, every registered key has its content. -/
+theorem faithful_update_sound (K : Key → Tree) (C : Nat → Tree) (tc tc' : TC) (h : UInv K C tc) (root : Node)
+    (hk : KOk K root) (hu : tc.update root = .ok tc') :
+    ∃ C', UInv K C' tc' ∧ (∀ j, j < tc.entries.size → C' j = C j) ∧ tc'.stack = tc.stack :=
+  update_spec h root hk hu
+
+/-- **the faithful model as a one-shot serializer**: no sentinel, one addition built as the harness builds
+it (`adds:` = `shared`, `add:` = fresh `NodePtr`s numbered from `next`).  If `add` returns, it reports
+completion, leaves no pending operation, and the bytes decode (both decoders, any continuation, any
+allocator state short of its limits) to the tree. -/
+theorem faithful_single_add_decodes (shared : Bool) (t : Tree) (next : Nat) (s' : FSer) (d : Bool) (u : FUndo)
+    (h : (FSer.new none).add (buildNode shared t next).1 = .ok (s', d, u)) :
+    d = true ∧ s'.readOpStack = [] ∧
+    ∀ (rest : Bytes) (c : Ctr), c.pairs + c.ghostPairs ≤ Gen.maxNumPairs →
+      ((∃ e, deBrOld (s'.output.buf ++ rest) [.sexp] Tree.nil c = .error e ∧ limitErr e) ∨
+        ∃ c', deBrOld (s'.output.buf ++ rest) [.sexp] Tree.nil c = .ok (t, rest, c')) ∧
+      ((∃ e, deBrNew (s'.output.buf ++ rest) [.sexp] [] c = .error e ∧ limitErr e) ∨
+        ∃ c', deBrNew (s'.output.buf ++ rest) [.sexp] [] c = .ok (t, rest, c')) := by
+  obtain ⟨⟨K, hk⟩, htree⟩ := buildNode_ok shared t next
+  have := single_add_decodes K _ hk s' d u h
+  rw [htree] at this
+  exact this
+
+/-- **`Statement` for the faithful model, unconditional, on serializers without sentinel**: every history
+of additions that ends completed decodes to the assembled tree.  (The general defect-free region is
+`FaithfulStatementDefectFree`, open.) -/
+theorem faithful_statement_no_sentinel (adds : List (Bool × Tree)) : FaithfulDecodes none adds :=
+  Clvm.TreeCacheProofs.faithful_statement_no_sentinel adds
+
+/-- the open obligation implies nothing more than what is proved when there is no sentinel (sanity:
+the proved part is an instance of the `def`) -/
+theorem faithful_statement_defect_free_no_sentinel_instance (adds : List (Bool × Tree))
+    (_ : DefectFree none adds = true) : FaithfulDecodes none adds :=
+  Clvm.TreeCacheProofs.faithful_statement_no_sentinel adds
+
+end Faithful
 
 /-! ### the unconditional statement and the known findings -/
 
